@@ -210,9 +210,12 @@ META = {
         "but the engine's concrete replay then runs in the already "
         "polluted interpreter and the run ends INCONCLUSIVE (exit 2) "
         "instead of with a replayed violation",
-        "build_machine / build_core_constraints / place_and_route wrapper "
-        "(pure readers of a SystemInfo; covered by the generic state scan "
-        "only as far as their default arguments go)",
+        "build_machine / build_core_constraints (pure readers of a "
+        "SystemInfo; covered by the generic state scan only as far as their "
+        "default arguments go); wrapper() and place_and_route_wrapper() on "
+        "problems other than the one of WrapperCall (three vertices, 2x2 "
+        "mesh, sequential placer, symbolic SDRAM demands, every flag "
+        "combination, default or own constraints list)",
         "boot() (C20), the C annealing kernel, complete anneals with a "
         "symbolic generator",
         "argument sizes beyond the bounds above",
@@ -1179,6 +1182,101 @@ class RouteCall(Call):
             for n in nets]
 
 
+class WrapperCall(Call):
+    """wrapper() / place_and_route_wrapper(): three vertices on a 2x2 mesh
+    (SDRAM demands symbolic), the sequential placer; the flags of wrapper()
+    chosen by the unit; the constraints left to the default or given as the
+    caller's own list."""
+    module = "rig.place_and_route.wrapper"
+    documented = ("InsufficientResourceError",)
+
+    def __init__(self, ctx, tag="", which="wrapper", flags=(True, True),
+                 own=False):
+        from rig.place_and_route.machine import Machine, Cores, SDRAM, SRAM
+        from rig.place_and_route.constraints import AlignResourceConstraint
+        from rig.netlist import Net
+        self.which, self.flags = which, tuple(flags)
+        names = [tag + "v%d" % i for i in range(3)]
+        vr = collections.OrderedDict(
+            (v, {Cores: 1, SDRAM: ctx.int("%ssd%d" % (tag, i), 0, 9)})
+            for i, v in enumerate(names))
+        nets = [Net(names[0], [names[1], names[2]])]
+        self.args = collections.OrderedDict(
+            vertices_resources=vr,
+            vertices_applications=dict((v, "app.aplx") for v in names),
+            nets=nets, net_keys={nets[0]: (0x100, 0xffffff00)})
+        if which == "wrapper":
+            self.args["machine"] = Machine(
+                2, 2, chip_resources={Cores: 3, SDRAM: 64, SRAM: 16})
+        else:
+            mcm = importlib.import_module(
+                "rig.machine_control.machine_controller")
+            consts = importlib.import_module("rig.machine_control.consts")
+            from rig.links import Links
+            si = mcm.SystemInfo(2, 2)
+            for x in range(2):
+                for y in range(2):
+                    si[(x, y)] = mcm.ChipInfo(
+                        num_cores=3,
+                        core_states=[consts.AppState.run,
+                                     consts.AppState.idle,
+                                     consts.AppState.idle],
+                        working_links=set(
+                            l for l in Links
+                            if 0 <= x + l.to_vector()[0] < 2 and
+                            0 <= y + l.to_vector()[1] < 2),
+                        largest_free_sdram_block=64,
+                        largest_free_sram_block=16,
+                        largest_free_rtr_mc_block=1024,
+                        ethernet_up=(x, y) == (0, 0),
+                        ip_address="10.0.0.1",
+                        local_ethernet_chip=(0, 0))
+            self.args["system_info"] = si
+        if own:
+            self.args["constraints"] = [AlignResourceConstraint(SDRAM, 2)]
+        self.rng = ReplayRandom(ctx)
+
+    def _invoke(self, mod):
+        a = self.args
+        self.rng.rewind()
+        seq = live_module("rig.place_and_route.place.sequential")
+        kw = {"place": seq.place}
+        if "constraints" in a:
+            kw["constraints"] = a["constraints"]
+        with route_rng(self.rng):
+            if self.which == "wrapper":
+                return mod.wrapper(
+                    a["vertices_resources"], a["vertices_applications"],
+                    a["nets"], a["net_keys"], a["machine"],
+                    reserve_monitor=self.flags[0],
+                    align_sdram=self.flags[1], **kw)
+            return mod.place_and_route_wrapper(
+                a["vertices_resources"], a["vertices_applications"],
+                a["nets"], a["net_keys"], a["system_info"], **kw)
+
+    def rebuilt(self):
+        c = Call.rebuilt(self)
+        si0 = self.args.get("system_info")
+        if si0 is not None:
+            # (clone() turns dictionary subclasses into plain dictionaries)
+            si = type(si0)(si0.width, si0.height)
+            for k, v in si0.items():
+                si[k] = v._replace(core_states=list(v.core_states),
+                                   working_links=set(v.working_links))
+            c.args["system_info"] = si
+        return c
+
+    def _norm(self, r):
+        pl, al, amap, tables = r
+        return [sorted(pl.items()),
+                sorted((v, sorted((repr(res), sl.start, sl.stop)
+                                  for res, sl in d.items()))
+                       for v, d in al.items()),
+                sorted((app, sorted((c, sorted(cs)) for c, cs in t.items()))
+                       for app, t in amap.items()),
+                sorted((c, _norm_table(t)) for c, t in tables.items())]
+
+
 class TablesCall(Call):
     """routing_tree_to_tables on trees made by the real router."""
     module = "rig.routing_table.utils"
@@ -1302,6 +1400,8 @@ def make_call(ctx, spec, tag=""):
         return TablesCall(ctx, tag=tag, **spec)
     if f == "min":
         return MinCall(ctx, **spec)
+    if f == "wrapper":
+        return WrapperCall(ctx, tag=tag, **spec)
     raise ValueError(f)
 
 
@@ -1889,6 +1989,28 @@ def units(tier, seed):
         f="place", placer="sa", effort=0.1, seed=seed, dims=(2, 1), nv=3,
         nres=1, nets="chain", cons=("loc", "same12"), nowrap=True), "place",
         wit=RR, split=5)
+
+    # ---------------- the two wrappers -------------------------------
+    for rm in (True, False):
+        for al in (True, False):
+            for own in (False, True):
+                args("wrapper reserve_monitor=%s align_sdram=%s %s" % (
+                    rm, al, "own constraints list" if own
+                    else "default constraints"),
+                    dict(f="wrapper", which="wrapper", flags=(rm, al),
+                         own=own), "wrapper", split=2)
+    for own in (False, True):
+        args("place_and_route_wrapper %s" % (
+            "own constraints list" if own else "default constraints"),
+            dict(f="wrapper", which="pnr", own=own), "wrapper", split=2)
+    hist("wrapper without alignment | wrapper with alignment only",
+         dict(f="wrapper", which="wrapper", flags=(True, False)),
+         dict(f="wrapper", which="wrapper", flags=(False, True)), "wrapper",
+         wit=("interferer-returned",), split=3)
+    hist("place_and_route_wrapper | same, own constraints list",
+         dict(f="wrapper", which="pnr"),
+         dict(f="wrapper", which="pnr", own=True), "wrapper",
+         wit=("interferer-returned",), split=3)
 
     # an anneal that moves vertices onto a chip with a resource exception
     # (the placer's working copy of the machine must not share the caller's
